@@ -22,6 +22,7 @@ import (
 	"log"
 	"math/rand"
 	"os"
+	"path/filepath"
 	"runtime"
 	"sort"
 	"strconv"
@@ -67,11 +68,19 @@ func turnstile() *mach.ASpec {
 
 var specs = map[string]*mach.ASpec{"door": door(), "turnstile": turnstile()}
 
+// the delay of every timer of the scenario ("1ms" where timer goroutines are gated; longer in stdio mode)
+var timerIn = func() string {
+	if v := os.Getenv("SYSDRV_IN"); v != "" {
+		return v
+	}
+	return "1ms"
+}()
+
 func doorBs(mid string) M {
 	tid := "relock-" + mid
 	relock := obj("to", mid, "relock", true)
 	return obj("tid", tid, "relock", relock,
-		"mk", obj("to", "timers", "makeTimer", obj("in", "1ms", "id", tid, "msg", relock)),
+		"mk", obj("to", "timers", "makeTimer", obj("in", timerIn, "id", tid, "msg", relock)),
 		"cn", obj("to", "timers", "cancelTimer", tid))
 }
 
@@ -102,7 +111,7 @@ func inputs() []input {
 		{k: "msg", m: obj("to", "d2", "input", "push")},
 		{k: "msg", m: obj("input", "coin")},
 		{k: "msg", m: obj("to", "timers", "cancelTimer", "relock-d1"), direct: true},
-		{k: "msg", m: obj("to", "timers", "makeTimer", obj("in", "1ms", "id", "x", "msg", obj("to", "d1", "input", "coin"))), direct: true},
+		{k: "msg", m: obj("to", "timers", "makeTimer", obj("in", timerIn, "id", "x", "msg", obj("to", "d1", "input", "coin"))), direct: true},
 		{k: "msg", m: obj("to", "timers", "makeTimer", obj("in", "soon", "id", "y", "msg", float64(1))), direct: true},
 		{k: "msg", m: obj("to", "captain", "hello", float64(1)), direct: true},
 		{k: "msg", m: obj("to", T{"t1", "d1"}, "input", "coin")},
@@ -164,8 +173,8 @@ func config() O {
 	c := &sio.Crew{}
 	ts := c.NewTimersSpec()
 	brs := ts.Nodes["start"].Branches.Branches
-	return O{"specs": sp, "init": in, "inputs": ins, "validIn": T{"1ms"},
-		"pats": O{"make": enc.P(brs[0].Pattern), "cancel": enc.P(brs[1].Pattern)},
+	return O{"specs": sp, "init": in, "inputs": ins, "validIn": T{timerIn},
+		"pats":    O{"make": enc.P(brs[0].Pattern), "cancel": enc.P(brs[1].Pattern)},
 		"targets": T{brs[0].Target, brs[1].Target}}
 }
 
@@ -681,6 +690,49 @@ func main() {
 		}
 		w.Flush()
 		f.Close()
+	case "stdio":
+		n, _ := strconv.Atoi(os.Args[2])
+		seed, _ := strconv.Atoi(os.Args[3])
+		maxlen, _ := strconv.Atoi(os.Args[4])
+		rng := rand.New(rand.NewSource(int64(seed)))
+		f, err := os.Create(os.Args[5])
+		check(err)
+		dir, err := os.MkdirTemp(filepath.Dir(os.Args[5]), "stdio")
+		check(err)
+		w := bufio.NewWriterSize(f, 1<<20)
+		e := json.NewEncoder(w)
+		e.SetEscapeHTML(false)
+		for id := 1; id <= n; id++ {
+			check(e.Encode(stdioRun(id, rng, maxlen, dir, nil)))
+		}
+		w.Flush()
+		f.Close()
+		os.RemoveAll(dir)
+	case "stdio-replay":
+		in, err := os.Open(os.Args[2])
+		check(err)
+		f, err := os.Create(os.Args[3])
+		check(err)
+		dir, err := os.MkdirTemp(filepath.Dir(os.Args[3]), "stdio")
+		check(err)
+		w := bufio.NewWriterSize(f, 1<<20)
+		e := json.NewEncoder(w)
+		e.SetEscapeHTML(false)
+		sc := bufio.NewScanner(in)
+		sc.Buffer(make([]byte, 1<<20), 1<<26)
+		id := 0
+		rng := rand.New(rand.NewSource(1))
+		for sc.Scan() {
+			var b struct {
+				Acts []T `json:"acts"`
+			}
+			check(json.Unmarshal(sc.Bytes(), &b))
+			id++
+			check(e.Encode(stdioRun(id, rng, 0, dir, b.Acts)))
+		}
+		w.Flush()
+		f.Close()
+		os.RemoveAll(dir)
 	case "random":
 		n, _ := strconv.Atoi(os.Args[2])
 		seed, _ := strconv.Atoi(os.Args[3])
